@@ -9,7 +9,7 @@ From Zorg Require Import Base.PyStr Base.Res Base.Dates Gen.Params Model.FileLis
   Model.PageSyntax Proofs.PageFacts.
 
 (* Every abstract page: any nesting of sections H1 > H2 > H3 > H4 (also H2 sections before the first H1), any number
-   of blocks and items, every item kind, with or without priority, every identity form (none / ZID / modify date +
+   of blocks, items and in-block comments, every item kind, with or without priority, every identity form (none / ZID / modify date +
    ZID / long creation date / modify date alone, followed by a word that is not ZID-shaped), any number of words of every modelled form (plain and look-alike identifiers, tags,
    digit-only tags, page links, properties, dates, ZIDs).  The result: not flagged; the notes are exactly
    spec_page, in document order, each with kind, priority, ZID, dates, body, line and the metadata in scope. *)
@@ -36,15 +36,18 @@ Proof. intros. destruct (spec_note_reading today ot op od key line it) as (A & B
 (* non-vacuity: a page with a title tag, two top-level items, an H2 before the first H1, and an H1 > H2 nesting *)
 Definition ex_page : apage :=
   mkPg [WId (S "Title"); WTag KArea (S "pa")]
-       [[mkItem None None (IPlain (S "foo")) [WTag KProject (S "p1"); WId (S "240101")];
-         mkItem (Some TOpen) (Some (S "P2")) (IZid (S "240105#0A")) [WId (S "bar"); WProp (S "k") (S "v")];
-         mkItem (Some TBlocked) None (IMod (S "240203")) [WDate (S "2021-07-07"); WId (S "due")]]]
-       [GSec [WId (S "Early")] [[mkItem (Some TDone) None (IModZid (S "240301") (S "231201#AB")) []]] []]
+       [[BItem (mkItem None None (IPlain (S "foo")) [WTag KProject (S "p1"); WId (S "240101")]);
+         BComment [WId (S "remark"); WTag KArea (S "notmine"); WProp (S "k") (S "comment")];
+         BItem (mkItem (Some TOpen) (Some (S "P2")) (IZid (S "240105#0A")) [WId (S "bar"); WProp (S "k") (S "v")]);
+         BItem (mkItem (Some TBlocked) None (IMod (S "240203")) [WDate (S "2021-07-07"); WId (S "due")])]]
+       [GSec [WId (S "Early")] [[BItem (mkItem (Some TDone) None (IModZid (S "240301") (S "231201#AB")) [])]] []]
        [GSec [WId (S "One"); WDate (S "2024-03-05")] []
-             [GSec [WId (S "Two"); WTag KContext (S "home")] [[mkItem None None (ILong (S "2024-02-02")) [WId (S "x1")]]] []]].
+             [GSec [WId (S "Two"); WTag KContext (S "home")] [[BItem (mkItem None None (ILong (S "2024-02-02")) [WId (S "x1")])]] []]].
 Example C01_page_example :
   valid_page ex_page /\ length (spec_page (mkDate 2024 6 1) ex_page) = 5%nat /\
-  map n_line (spec_page (mkDate 2024 6 1) ex_page) = [3; 4; 5; 9; 15]%nat /\
+  map n_line (spec_page (mkDate 2024 6 1) ex_page) = [3; 5; 6; 10; 16]%nat /\
+  (* the in-block comment (line 4) yields no note and its #notmine / k::comment reach no note *)
+  map n_areas (spec_page (mkDate 2024 6 1) ex_page) = [[S "pa"]; [S "pa"]; [S "pa"]; [S "pa"]; [S "pa"]] /\
   (* a long date after a modify date that stands alone is a body word: the creation date stays the page's *)
   map n_create (spec_page (mkDate 2024 6 1) ex_page) =
     [mkDate 2024 6 1; mkDate 2024 1 5; mkDate 2024 6 1; mkDate 2023 12 1; mkDate 2024 2 2].
